@@ -8,6 +8,13 @@
 //  * reporting: counters, outcome classes, violations (deduplicated by signature),
 //    samples; result is written as JSON for bin/check
 #pragma once
+// line-coverage builds (bin/coverage): forked workers leave through _exit(), so they flush the counters themselves
+#ifdef VF_COVERAGE
+extern "C" void __gcov_dump(void);
+#define VF_COV_DUMP() __gcov_dump()
+#else
+#define VF_COV_DUMP() ((void)0)
+#endif
 
 #include <stdexcept>
 #include <cstdio>
@@ -558,6 +565,7 @@ inline int run_stage(const Stage &st, const Opts &o, double t_start, StageResult
             worker_loop(st, ctx, block, nblocks, rot, w, rb, re);
             if (ctx.vfile) fclose(ctx.vfile);
             fflush(stdout);
+            VF_COV_DUMP();
             _exit(0);
         }
         g_shm->slots[w].pid = p;
